@@ -1,6 +1,7 @@
 package main
 
 import (
+	"os"
 	"fmt"
 	"go/types"
 	"sort"
@@ -293,7 +294,50 @@ func (c *FnCtx) loadPtr(st *State, p Val, t types.Type) Val {
 	if c.inUnfold == 0 || len(c.bound) == 0 {
 		c.wellFormed(st.reach, out, st)
 	}
+	c.quantWF(st, out)
 	return out
+}
+
+// quantWF: a value loaded under a quantifier gets the well-formedness facts of any loaded value, generalised over the
+// bound variables the loaded cell depends on (addFact drops facts that mention bound variables; every cell of every
+// reachable heap holds a well-formed value: references denote allocated objects, slice headers are sane).
+func (c *FnCtx) quantWF(st *State, out Val) {
+	if !(c.inUnfold == 0 && len(c.bound) > 0 && len(out.L) > 0 && os.Getenv("VCGO_NO_QWF") == "") {
+		return
+	}
+	var bvs []*Term
+	seen := map[string]bool{}
+	out.L[0].Walk(func(x *Term) {
+		if len(x.Args) == 0 && x.Bound == nil {
+			for _, n := range c.bound {
+				if x.Op == n && !seen[n] {
+					seen[n] = true
+					bvs = append(bvs, x)
+				}
+			}
+		}
+	})
+	covered := len(bvs) > 0
+	for _, l := range out.L[1:] {
+		l.Walk(func(x *Term) {
+			if len(x.Args) == 0 && x.Bound == nil {
+				for _, n := range c.bound {
+					if x.Op == n && !seen[n] {
+						covered = false
+					}
+				}
+			}
+		})
+	}
+	if !covered {
+		return
+	}
+	if ts := wfTerms(out, c.get(st, "$alloc", SInt)); len(ts) > 0 {
+		saved := c.bound
+		c.bound = nil
+		c.addFact(Forall(bvs, Imp(st.reach, And(ts...)), []*Term{out.L[0]}))
+		c.bound = saved
+	}
 }
 
 func (c *FnCtx) storePtr(st *State, p Val, v Val) {
@@ -404,6 +448,8 @@ func (c *FnCtx) mapLookup(st *State, mv Val, key Val) (Val, *Term) {
 	} else if st == c.entry && len(ls) > 0 {
 		// a lookup under a quantifier in the entry state: every value stored in a map of the entry heap is well-formed
 		c.mapWF(st, m, ks)
+	} else if len(ls) > 0 {
+		c.quantWF(st, out)
 	}
 	return out, ok
 }
